@@ -187,15 +187,44 @@ def check(run):
                       key=key_of("C18-R3", "sibling-table"))
 
     # ------------------------------------------------------------------ R4
-    t = ast.unparse(sd.node)
-    ok = ("face_mask = np.zeros(len(faces), dtype=bool)" in t and "face_mask[face_index] = True" in t and "faces_subset = faces[face_mask]" in t
-          and "faces[~face_mask]" in t and "face_mask = np.ones(len(faces), dtype=bool)" in t)
-    run.instance("R4", sd.where, "faces selected by a boolean mask built from face_index; remainder is ~mask", ok)
+    # by role: the mask M is whatever complements the untouched faces in the returned stack (`P_faces[~M]`); every version of
+    # M that reaches that use is all-True, or all-False with True stored at the requested indices (a repeated index cannot
+    # select a face twice); the subdivided faces are `P_faces[M]` with the same M
+    from ..idioms import nonzero_rows
+    pss = Prov(ix, sd, depth=14, ssa=True)
+    inv_uses = [n for n in ast.walk(sd.node) if isinstance(n, ast.UnaryOp) and isinstance(n.op, ast.Invert) and isinstance(n.operand, ast.Name)
+                and isinstance(pss._stmt_of.get(id(n)), ast.stmt)]
+    masks = {n.operand.id for n in inv_uses}
+    ok = len(masks) == 1
+    vers = None
+    if ok:
+        mname_ = next(iter(masks))
+        vers = pss.versions(mname_, pss.stmt_of(inv_uses[0])) or set()
+        ALL = {"numpy.ones(len(P_faces), dtype=bool)", "numpy.ones(len(P_faces), bool)", "numpy.ones(P_faces.shape[0], dtype=bool)",
+               "numpy.full(len(P_faces), True)"}
+        SEL = {"STORE(numpy.zeros(len(P_faces), dtype=bool), _[P_face_index], True)", "STORE(numpy.zeros(len(P_faces), bool), _[P_face_index], True)",
+               "STORE(numpy.zeros(P_faces.shape[0], dtype=bool), _[P_face_index], True)"}
+        ok = bool(vers) and vers <= (ALL | SEL) and bool(vers & SEL)
+        # the rows that are subdivided are selected by the same mask
+        subset = [n for n in ast.walk(sd.node) if isinstance(n, ast.Subscript) and isinstance(n.ctx, ast.Load) and ast.unparse(n) == f"faces[{mname_}]"]
+        ok = ok and bool(subset)
+    run.instance("R4", sd.where, f"faces selected by a boolean mask built from face_index; remainder is ~mask (versions of the mask: {sorted(vers or [])})", ok)
     if not ok:
         run.violation("R4", sd.where, "subdivide no longer selects faces through one boolean mask: a repeated index would be split twice while its parent "
                                       "is removed once, or split and untouched sets overlap", key=key_of("C18-R4", "mask"))
-    ok = "nonzero = np.nonzero(face_mask)[0]" in t and "dict(zip(nonzero, stack))" in t and "reshape((-1, 4))" in t
-    run.instance("R4", sd.where, "return_index maps each selected face to its four children", ok)
+    # the index of children: dict(zip(<indices of the selected faces in mask order>, <rows of 4 consecutive new face ids>))
+    ok = False
+    for r in ast.walk(sd.node):
+        if isinstance(r, ast.Return) and isinstance(r.value, ast.Tuple) and len(r.value.elts) == 3 and pss.stmt_of_return(r) is not None:
+            term = pss.term(r.value.elts[2], r)
+            tn = ast.parse(ast.unparse(term), mode="eval").body
+            if isinstance(tn, ast.Call) and ast.unparse(tn.func) == "dict" and len(tn.args) == 1 and isinstance(tn.args[0], ast.Call) \
+                    and ast.unparse(tn.args[0].func) == "zip" and len(tn.args[0].args) == 2:
+                keys, vals = tn.args[0].args
+                km = nonzero_rows(keys)
+                four = match_expr("numpy.arange(_e_start, _e_start + len(_e_f) * 4).reshape((-1, 4))", vals)
+                ok = km is not None and ast.unparse(km).startswith("PHI_") and four is not None
+    run.instance("R4", sd.where, "return_index maps each selected face (in mask order) to its four children", ok)
     if not ok:
         run.violation("R4", sd.where, "subdivide's index of children no longer follows the mask order", key=key_of("C18-R4", "index"))
 
@@ -271,21 +300,47 @@ def check(run):
     run.instance("R5", fi.where, f"per body: signed volume of the body's own triangles; negative bodies are flipped column-wise ({detail})", ok)
     if not ok:
         run.violation("R5", fi.where, "fix_inversion's per-body volume test or flip changed", key=key_of("C18-R5", "per-body"))
+    from ..cfg import CFG
     fn = ix.func("trimesh.repair:fix_normals")
-    t = ast.unparse(fn.node)
-    ok = t.index("fix_winding(mesh)") < t.index("fix_inversion(mesh, multibody=multibody)") if ("fix_winding(mesh)" in t and "fix_inversion(mesh, multibody=multibody)" in t) else False
+    pfn = Prov(ix, fn)
+    cfgn = CFG(fn.node, exceptions=False)
+    calls = {}
+    for n_ in ast.walk(fn.node):
+        if isinstance(n_, ast.Call) and pfn.callee(n_.func) in ("trimesh.repair.fix_winding", "trimesh.repair.fix_inversion"):
+            calls.setdefault(pfn.callee(n_.func).split(".")[-1], []).append(n_)
+    ok = len(calls.get("fix_winding", [])) == 1 and len(calls.get("fix_inversion", [])) == 1
+    if ok:
+        cw, ci = calls["fix_winding"][0], calls["fix_inversion"][0]
+        nw, ni = cfgn.nodes_of.get(id(pfn.stmt_of(cw))), cfgn.nodes_of.get(id(pfn.stmt_of(ci)))
+        _, pos, kw = pfn.canon_call(ci, pfn.stmt_of(ci))
+        mb = kw.get("multibody", pos[1] if len(pos) > 1 else None)
+        ok = bool(nw) and bool(ni) and cfgn.dominates(nw[0], ni[0]) and mb == f"P_{fn.params[1]}" \
+            and pfn.canon(cw.args[0], pfn.stmt_of(cw)) == f"P_{fn.params[0]}" and (pos[:1] == [f"P_{fn.params[0]}"] or kw.get("mesh") == f"P_{fn.params[0]}")
     run.instance("R5", fn.where, "fix_normals: winding first, then inversion with multibody forwarded", ok)
     if not ok:
         run.violation("R5", fn.where, "fix_normals no longer runs fix_winding then fix_inversion(multibody=multibody)", key=key_of("C18-R5", "order"))
     tf = ix.func("trimesh.base:Trimesh.fix_normals")
-    t = ast.unparse(tf.node)
-    ok = "multibody = self.body_count > 1" in t and "repair.fix_normals(self, multibody=multibody)" in t
+    ptf = Prov(ix, tf)
+    ok = False
+    for n_ in ast.walk(tf.node):
+        if isinstance(n_, ast.Call) and ptf.callee(n_.func) == "trimesh.repair.fix_normals":
+            st_ = ptf.stmt_of(n_)
+            _, pos, kw = ptf.canon_call(n_, st_)
+            mbv = kw.get("multibody", pos[1] if len(pos) > 1 else None)
+            alts = None
+            mexp = next((k.value for k in n_.keywords if k.arg == "multibody"), n_.args[1] if len(n_.args) > 1 else None)
+            if isinstance(mexp, ast.Name):
+                alts = ptf.alternatives(mexp.id, st_)
+            ok = (pos[:1] == ["P_self"] or kw.get("mesh") == "P_self") and (
+                mbv in ("P_self.body_count > 1", "1 < P_self.body_count") or (alts is not None and alts <= {"P_multibody", "P_self.body_count > 1", "1 < P_self.body_count"}
+                                                                             and bool(alts & {"P_self.body_count > 1", "1 < P_self.body_count"})))
     run.instance("R5", tf.where, "Trimesh.fix_normals picks multibody from body_count and forwards it", ok)
     if not ok:
         run.violation("R5", tf.where, "Trimesh.fix_normals no longer enables per-body repair for multi-body meshes", key=key_of("C18-R5", "wrapper"))
     inv = ix.func("trimesh.base:Trimesh.invert")
-    t = ast.unparse(inv.node)
-    ok = "self.faces = np.ascontiguousarray(np.fliplr(self.faces))" in t
+    pinv = Prov(ix, inv)
+    stores = [st for st in ast.walk(inv.node) if isinstance(st, ast.Assign) and ast.unparse(st.targets[0]) == "self.faces"]
+    ok = len(stores) == 1 and pinv.canon(stores[0].value, stores[0]) in ("numpy.fliplr(P_self.faces)", "numpy.flip(P_self.faces, axis=1)", "numpy.flip(P_self.faces, 1)")
     run.instance("R5", inv.where, "invert reverses every face column-wise", ok)
     if not ok:
         run.violation("R5", inv.where, "Trimesh.invert no longer reverses the winding of every face", key=key_of("C18-R5", "invert"))
